@@ -112,6 +112,8 @@ class Truth:
         out = {}
         pk = []
         for fi in self.done:
+            if fi in self.scn.get("corrupt", ()):       # an unreadable capture: processed (dropped from the queue), no packets
+                continue
             for p in self.scn["files"][fi]:
                 pk.append(p)
         pk.sort(key=lambda p: p["t"])
@@ -253,6 +255,8 @@ def gen_scenario(rng, name, nact):
         files.append(pk)
     scn = {"name": name, "flows": flows, "files": files, "converters": ["cva"] if rng.random() < 0.7 else ["cva", "cvb"],
            "searches": [], "actions": [], "defs": {}}
+    if nfiles >= 3 and rng.random() < 0.25:
+        scn["corrupt"] = [rng.randrange(1, nfiles)]      # written as garbage: the import of this capture fails
     rank = {t: i for i, t in enumerate(TAGNAMES)}
     existing = {}      # name -> def AST (generator's belief; errors do not matter much)
     imported = []
@@ -391,7 +395,7 @@ def gen_template(rng, name, family=None):
        convjob-2imp  : two imports complete while a converter job is parked at its start
        view-import   : on-demand conversion through a view opened before / during an import"""
     family = family or rng.choice(["tagjob-import", "tagjob-refchg", "convjob-2imp", "view-import", "convjob-detach", "view-multi", "view-multi",
-                                   "tagjob-convdone"])
+                                   "tagjob-convdone", "import-corrupt", "tag-evalerr", "conv-baddir"])
     scn = _tmpl_base(rng, name, rng.choice([3, 4]))
     kinds, x = _file_kinds(rng, scn)
     acts = scn["actions"]
@@ -471,6 +475,66 @@ def gen_template(rng, name, family=None):
             acts += [["stepkind", "import"], ["stepkind", "import"], ["stepkind", "tag"], ["stepkind", "tag"]]
         acts.append(rng.choice([["setconv", T, []], ["deltag", T]]))
         acts += [["stepkind", "convert"], ["stepkind", "convert"], ["stepkind", "convert"]]
+    elif family == "import-corrupt":
+        # error path of the importer: an unreadable capture in the queue with more captures behind it / before it
+        bad = rng.choice(["extend", "reset", "add"])
+        scn["corrupt"] = [kinds[bad]]
+        good = [kinds[kd] for kd in ("extend", "reset", "add") if kd != bad]
+        rng.shuffle(good)
+        acts.append(["addtag", "tag/a", add_def(_plain_def(rng, scn, ("port", "host", "data", "id")))])
+        shape = rng.choice(["one-call", "queued-behind", "queued-before"])
+        if shape == "one-call":
+            order = [kinds[bad]] + good if rng.random() < 0.6 else [good[0], kinds[bad], good[1]]
+            acts.append(["import", order])
+        elif shape == "queued-behind":
+            acts.append(["import", [kinds[bad]]])
+            if rng.random() < 0.5:
+                acts.append(["stepkind", "import"])
+            acts.append(["import", [good[0]]])
+            acts.append(["import", [good[1]]])
+        else:
+            acts.append(["import", [good[0]]])
+            acts.append(["import", [kinds[bad]]])
+            acts.append(["import", [good[1]]])
+        for _ in range(rng.choice([0, 2, 4, 6])):
+            acts.append(["stepkind", "import"])
+    elif family == "tag-evalerr":
+        # error path of the tagging job: a definition that parses but whose evaluation fails (data filter on a converter
+        # that does not exist); the tag has to be decided (no matches) and the other tags / the merge must not starve
+        word = rng.choice([p["data"] for p in scn["files"][0]])
+        acts.append(["addtag", "tag/b", add_def(("cdatac", "gone", word.encode().hex()))])
+        if rng.random() < 0.6:
+            acts.append(["addtag", "tag/a", add_def(_plain_def(rng, scn, ("port", "host", "data", "id")))])
+        if rng.random() < 0.4:
+            acts.append(["addtag", "tag/c", add_def(rng.choice([("ref", "tag/b"), ("not", ("ref", "tag/b"))]))])
+        for _ in range(rng.choice([0, 1, 2])):
+            acts.append(["stepkind", "tag"])
+        if rng.random() < 0.6:
+            kd = rng.choice(["extend", "add"])
+            acts.append(["import", [kinds[kd]]])
+            acts += [["stepkind", "import"], ["stepkind", "import"]]
+    elif family == "conv-baddir":
+        # error path of a converter: cvb answers streams that carry the word flagX with a chunk of an unknown direction
+        # followed by more output (Converter.Data fails, the process must not be reused); other streams follow on cvb
+        scn["converters"] = ["cva", "cvb"]
+        n = len(scn["flows"]) - 1
+        scn["files"][0][rng.randrange(len(scn["files"][0]))]["data"] = "flagX"
+        if rng.random() < 0.5:
+            acts.append(["addtag", "tag/a", add_def(rng.choice([("not", ("cport", [9])), _plain_def(rng, scn, ("port", "host", "id"))]))])
+            acts.append(["settle", rng.randrange(1 << 20)])
+            acts.append(["setconv", "tag/a", rng.choice([["cvb"], ["cva", "cvb"]])])
+            for _ in range(rng.choice([0, 1, 2])):
+                acts.append(["stepkind", "convert"])
+            if rng.random() < 0.5:
+                acts.append(["import", [kinds[rng.choice(["extend", "add"])]]])
+        else:
+            # the process pool alone: conversions on demand through a view, one after the other, no tag keeps cvb
+            scn["pool"] = "cvb"
+            acts.append(["viewopen", 0])
+            order = list(range(n))
+            rng.shuffle(order)
+            for sid in order + order[:rng.choice([0, 1, 2])]:
+                acts.append(["viewdata", 0, sid, "cvb"])
     elif family == "tagjob-convdone":
         # a converter job completes while the tagging job of a tag that filters on that converter's output is parked
         # (before or after its evaluation); the tag must not be published decided with pre-conversion matches
@@ -546,8 +610,8 @@ def gen_template(rng, name, family=None):
     return scn
 
 
-FAMILY_OF_FIELD = {"tags": ["tagjob-import", "tagjob-refchg", "tagjob-convdone"], "next": ["tagjob-import"], "tc": ["convjob-2imp", "view-import", "convjob-detach"],
-                   "ca": ["convjob-2imp", "view-import"], "j": ["tagjob-import", "convjob-2imp"], "q": ["tagjob-import"],
+FAMILY_OF_FIELD = {"tags": ["tagjob-import", "tagjob-refchg", "tagjob-convdone", "tag-evalerr"], "next": ["tagjob-import"], "tc": ["convjob-2imp", "view-import", "convjob-detach"],
+                   "ca": ["convjob-2imp", "view-import", "conv-baddir"], "pool": ["conv-baddir"], "j": ["tagjob-import", "convjob-2imp"], "q": ["tagjob-import", "import-corrupt"],
                    "ix": ["convjob-2imp"], "me": ["convjob-2imp", "tagjob-import"]}
 
 
@@ -703,6 +767,23 @@ def inline_shapes(q, vst, asts):
     return sorted(out)
 
 
+def conv_names(d):
+    """converters a definition filters on (`cdata.<converter>:`)"""
+    if d[0] == "cdatac":
+        return {d[1]}
+    if d[0] == "not":
+        return conv_names(d[1])
+    if d[0] in ("and", "or"):
+        return conv_names(d[1]) | conv_names(d[2])
+    return set()
+
+
+def conv_bad(cname, s):
+    """the harness converter cvb answers streams that carry the word flagX with a chunk of an unknown direction
+    (Converter.Data fails: the conversion is retried once and then discarded, nothing is cached)"""
+    return cname == "cvb" and ("flagX" in s["c"] or "flagX" in s["s"])
+
+
 def conv_expected(cname, s):
     # hex: a data filter without converter selector also searches converter output; hex never matches the data words
     return "%s#%s#%s\x00" % (cname, s["c"].encode().hex(), s["s"].encode().hex())
@@ -829,7 +910,13 @@ def check_scenario(scn, lines):
                                       "stream_truth": {k: v for k, v in streams[sid].items() if k != "cl"},
                                       "refs": sorted(refs(asts[tn])) if asts[tn] else []}))
         # ---- C06 (view): HasTag / AllTags of a fresh view with all tags prefetched
-        for s in fresh.get("streams", []):
+        if fresh.get("prefetchErr"):
+            # the view could not prefetch the tags (a tag whose evaluation fails is still undecided): an error, not a
+            # silently wrong answer; only allowed while such a tag is undecided
+            if not any(t["u"] and asts.get(tn) is not None and any(c not in st["cache"] for c in conv_names(asts[tn]))
+                       for tn, t in st["tags"].items()):
+                F.append(Finding("C06", "view-prefetch-error", name, i, fresh["prefetchErr"]))
+        for s in ([] if fresh.get("prefetchErr") else fresh.get("streams", [])):
             want = sorted(tn for tn, tr in tsets.items() if tr is not None and tn not in conv_pending and s["id"] in tr)
             known = [tn for tn in s["has"] if tsets.get(tn) is not None and tn not in conv_pending]
             stats["view_checks"] += 1
@@ -859,6 +946,17 @@ def check_scenario(scn, lines):
                         if [tn for tn in o["has"] if tn in clean] != wt or sorted(tn for tn in o["tags"] if tn in clean) != wt:
                             F.append(Finding("C06", "view-search-hastag", name, i,
                                              {"view": act[1], "query": act[2], "stream": o["id"], "has": o["has"], "alltags": o["tags"], "truth": wt}))
+        # ---- C16: StreamContext.Data(converter) through a view = the converter's answer for THAT stream (as the view shows it)
+        if act[0] == "viewdata" and isinstance(ln.get("info"), dict) and act[3] in st["cache"]:
+            vi = ln["info"]
+            payload = {"c": vi["c"], "s": vi["s"]}
+            cur = streams.get(act[2])
+            if cur is None or (cur["c"], cur["s"]) != (vi["c"], vi["s"]) or st["fconv"] or act[2] in st["toconv"].get(act[3], []):
+                pass        # an old view / output about to be replaced: the cache oracle below decides
+            elif conv_bad(act[3], payload):
+                F.append(Finding("C16", "view-data-output", name, i, {"conv": act[3], "stream": act[2], "got": vi["out"], "want": "an error (invalid direction)"}))
+            elif vi["out"] != conv_expected(act[3], payload):
+                F.append(Finding("C16", "view-data-output", name, i, {"conv": act[3], "stream": act[2], "got": vi["out"], "want": conv_expected(act[3], payload)}))
         # ---- C16: cache version
         inflight = st["fconv"]
         if inflight:
@@ -925,7 +1023,8 @@ def check_scenario(scn, lines):
                     need = set()
                     for tn in tns:
                         need |= set(st["tags"][tn]["m"])
-                    miss = sorted(sid for sid in need if sid in streams and str(sid) not in st["cache"].get(c, {}))
+                    miss = sorted(sid for sid in need if sid in streams and str(sid) not in st["cache"].get(c, {})
+                                  and not conv_bad(c, streams[sid]))
                     if miss:
                         F.append(Finding("C16", "missing-output-at-quiescence", name, i, {"conv": c, "streams": miss, "tags": tns}))
     for f in F:
@@ -1029,10 +1128,30 @@ def proj_from_dump(st, streams, reg, scn):
         ";".join(ca), ",".join(map(str, st["idxcnt"])), "1" if st["mergeEligible"] else "0")
 
 
+def job_files(scn, taken):
+    """(processedFiles, files whose packets are imported) of an import job started with the queue `taken`
+    (builder.FromPcap: an unreadable first capture = 1 processed file + error; a later one ends the job before it)"""
+    corrupt = set(scn.get("corrupt", ()))
+    if not taken:
+        return 0, []
+    if taken[0] in corrupt:
+        return 1, []
+    used = []
+    for f in taken:
+        if f in corrupt:
+            break
+        used.append(f)
+    return len(used), used
+
+
 def import_response(scn, done, taken, flow_ids, next_after):
     """(proc, upd, rst, add, next, idx) of an import job that takes files `taken` when `done` are completed"""
     old, new = {}, {}
+    corrupt = set(scn.get("corrupt", ()))
+    proc, taken = job_files(scn, taken)
     for fi in done:
+        if fi in corrupt:
+            continue
         for p in scn["files"][fi]:
             old.setdefault(p["flow"], []).append(p["t"])
     for fi in taken:
@@ -1050,7 +1169,7 @@ def import_response(scn, done, taken, flow_ids, next_after):
         else:
             upd |= 1 << sid
     touched = upd | rst | add
-    return "bimport %d %d %d %d %d %s" % (len(taken), upd, rst, add, next_after, str(touched) if touched else "-")
+    return "bimport %d %d %d %d %d %s" % (proc, upd, rst, add, next_after, str(touched) if touched else "-")
 
 
 def model_cases(scn, lines, kfs, per_line):
@@ -1061,6 +1180,9 @@ def model_cases(scn, lines, kfs, per_line):
     idxs = []
     defs = scn["defs"]
     tag_snap = None
+    conv_snap = None
+    pool_live = True
+    out_lines = out
     imp_taken = None
     prev_jobs = []
     for li, ln in enumerate(lines):
@@ -1101,12 +1223,15 @@ def model_cases(scn, lines, kfs, per_line):
             a = "%s %d %s %d" % (k, rank(act[1]), ",".join(map(str, act[2])) or "-", did)
         elif k == "setconv":
             a = "setconv %d %s" % (rank(act[1]), ",".join(str(convs.index(c)) for c in act[2] if c in convs) or "-")
+            if scn.get("pool") in act[2]:
+                pool_live = False
         elif k in ("step", "stepkind", "substep"):
             if res == "import.start":
                 # ids of the flows and next id: from the first later dump in which this import is completed
                 resp = None
+                nproc, used = job_files(scn, imp_taken or [])
                 for lj in range(li + 1, len(lines)):
-                    if lj in per_line and set(imp_taken or []) <= set(per_line[lj][2]):
+                    if lj in per_line and set((imp_taken or [])[:nproc]) <= set(per_line[lj][2]):
                         s2 = per_line[lj][0]
                         fl_ids = {}
                         fl2 = Truth(scn)
@@ -1117,11 +1242,11 @@ def model_cases(scn, lines, kfs, per_line):
                                     fl_ids[fl] = sid
                         # the next id right after this import: ids of flows present once done+taken are imported
                         t3 = Truth(scn)
-                        t3.done = list(done_before) + list(imp_taken or [])
+                        t3.done = list(done_before) + list(used)
                         nxt = 1 + max([fl_ids[f] for f in t3.flows() if f in fl_ids] + [-1])
                         resp = import_response(scn, done_before, imp_taken or [], fl_ids, nxt)
                         break
-                a = resp or "bimport %d 0 0 0 %d -" % (len(imp_taken or []), st["next"])
+                a = resp or "bimport %d 0 0 0 %d -" % (nproc, st["next"])
             elif res == "tag.start":
                 tab = []
                 if tag_snap is not None:
@@ -1141,7 +1266,14 @@ def model_cases(scn, lines, kfs, per_line):
                         tab.append("%d=%d" % (rank(tn), bits(sid for sid in sstreams if eval_def(d, sid, sstreams, val))))
                 a = "btag " + (";".join(tab) or "-")
             elif res == "convert.start":
-                a = "bconv"
+                # conversions that fail (discarded after the second attempt): by the payload of the job's index snapshot
+                bad = []
+                if conv_snap is not None:
+                    for ci, c in enumerate(convs):
+                        for sid, o in conv_snap.items():
+                            if conv_bad(c, o):
+                                bad.append("%d:%d" % (ci, sid))
+                a = "bconv " + (",".join(bad) or "-")
             elif res == "merge.start":
                 a = "bmerge"
             elif res.endswith(".done"):
@@ -1153,6 +1285,25 @@ def model_cases(scn, lines, kfs, per_line):
         elif k == "viewdata":
             if res == "ok" and act[3] in convs:
                 a = "vdata %d %d %d" % (act[1], convs.index(act[3]), act[2])
+            # the process pool of a converter that is only used on demand (no converter job so far): the extracted pool
+            # model (kill rule) answers the same requests
+            if scn.get("pool") == act[3] and pool_live and act[2] in streams and (res == "ok" or res.startswith("err:converter")):
+                prev = next((lines[lj]["state"]["cache"] for lj in range(li - 1, -1, -1) if lines[lj].get("state")), {})
+                if str(act[2]) not in prev.get(act[3], {}):
+                    o = streams[act[2]]
+                    req = "0:99,1:%d" % (2 * act[2] + 1) if conv_bad(act[3], o) else "1:%d" % (2 * act[2])
+                    got = "E"
+                    if res == "ok":
+                        vout = ln["info"]["out"]
+                        got = "X"
+                        # (two streams may carry the same payload: the requested stream is tried last = wins)
+                        for sid2, o2 in sorted(streams.items(), key=lambda kv: kv[0] == act[2]):
+                            if vout == conv_expected(act[3], o2):
+                                got = str(2 * sid2)
+                            elif vout == "LEFTOVER#" + conv_expected(act[3], o2):
+                                got = str(2 * sid2 + 1)
+                    out_lines.append("P %s %s || %s" % (act[3], req, got))
+                    idxs.append(li)
         elif k == "viewclose":
             a = "vclose %d" % act[1]
         out.append("A %s || %s" % (exp, a))
@@ -1160,6 +1311,8 @@ def model_cases(scn, lines, kfs, per_line):
         jobs = st["jobs"]
         if "tag:0" in jobs and ("tag:0" not in prev_jobs or res == "tag.done"):
             tag_snap = (st, streams)
+        if "convert:0" in jobs and ("convert:0" not in prev_jobs or res == "convert.done"):
+            conv_snap = streams
         if "import:0" in jobs and ("import:0" not in prev_jobs or res == "import.done"):
             # the job took the whole queue when it was started by a completion, or the files of the first ImportPcaps call
             if k == "import":
@@ -1230,7 +1383,7 @@ def scenarios_for(tier, seed):
                     out.append(s)
     for i in range(n):
         out.append(gen_scenario(rng, "g%04d" % i, rng.choice([12, 20, 30, 40])))
-    for i in range(n // 4):
+    for i in range(n // 3):
         out.append(gen_template(rng, "t%04d" % i))
     return out
 
@@ -1266,7 +1419,7 @@ def shared_run(tier, seed):
 
 
 def model_exe():
-    return build_model("C06", "ExtractC06.v", os.path.join(ROOT, "ocaml/c06"), ["theories/Tags.v"])[0]
+    return build_model("C06", "ExtractC06.v", os.path.join(ROOT, "ocaml/c06"), ["theories/Tags.v", "theories/TagsC16P.v"])[0]
 
 
 def setup():
@@ -1322,7 +1475,7 @@ def divergence_owner(fields):
     return "C06"
 
 
-FIELD_PROP = {"tags": "C06", "next": "C06", "tc": "C16", "ca": "C16", "j": "C09", "q": "C09", "ix": "C09", "me": "C09"}
+FIELD_PROP = {"tags": "C06", "next": "C06", "tc": "C16", "ca": "C16", "pool": "C16", "j": "C09", "q": "C09", "ix": "C09", "me": "C09"}
 
 
 def analyse(shared, exe):
